@@ -409,6 +409,13 @@ func (s *Syncer) addPeer(p *Peer) error {
 			return errors.New("too many inbound peers")
 		}
 	}
+	if _, ok := s.peers[p.t.Addr]; ok {
+		// the peer map is keyed by address: inserting a second peer under the
+		// same address would drop the first one from the map while its
+		// connection is still being served, and the first one's cleanup would
+		// later remove the second
+		return errors.New("already connected")
+	}
 	s.peers[p.t.Addr] = p
 	return nil
 }
